@@ -101,6 +101,19 @@ M = [
  ("NEUTRAL-incentive-close-unwrap_or_else", "C11", PN+"incentive/src/execute/close_position.rs", 'let mut closed_positions = closed_positions.unwrap_or_default();', 'let mut closed_positions = closed_positions.unwrap_or_else(Vec::new);', False),
  ("NEUTRAL-factory-cursor-byte-0", "C19", VN+"vault_factory/src/state.rs", 'v.push(1);', 'v.push(0);', False),
  ("NEUTRAL-lair-bond-assets-binding", "C08", L+"whale_lair/src/commands.rs", 'asset::aggregate_assets(global_index.bonded_assets, vec![asset.clone()])?;', 'asset::aggregate_assets(global_index.bonded_assets, { let declared = asset.clone(); vec![declared] })?;', False),
+
+ ("NEUTRAL-trio-sim-height-binding", "C04", PN+"stableswap_3pool/src/queries.rs", '    let invariant = StableSwap::new(\n        config.initial_amp,\n        config.future_amp,\n        current_block,', '    let now_height = current_block;\n    let invariant = StableSwap::new(\n        config.initial_amp,\n        config.future_amp,\n        now_height,', False),
+ ("NEUTRAL-router-profit-gt-zero", "C06", VN+"vault_router/src/execute/complete_loan.rs", 'if !profit_amount.is_zero() {', 'if profit_amount > cosmwasm_std::Uint128::zero() {', False),
+ ("NEUTRAL-lair-unbonding-typed-bound", "C08", L+"whale_lair/src/queries.rs", 'let start = calc_range_start(start_after).map(Bound::ExclusiveRaw);', 'let _unused = calc_range_start(None);\n    let start = start_after.map(Bound::exclusive);', False),
+ ("NEUTRAL-pair-next_d-ann-commuted", "C03", PN+"terraswap_pair/src/helpers.rs", 'let ann = amp_factor.checked_mul(n_coins.u128() as u64)?;', 'let ann = (n_coins.u128() as u64).checked_mul(*amp_factor)?;', False),
+ ("NEUTRAL-pair-collect-threshold-flipped", "C07", PN+"terraswap_pair/src/commands.rs", 'if protocol_fee.amount > MINIMUM_COLLECTABLE_BALANCE {', 'if MINIMUM_COLLECTABLE_BALANCE < protocol_fee.amount {', False),
+ ("NEUTRAL-trio-slippage-flipped", "C15", PN+"stableswap_3pool/src/helpers.rs", 'if pool_ratio * one_minus_slippage_tolerance > deposit_ratio {', 'if deposit_ratio < one_minus_slippage_tolerance * pool_ratio {', False),
+ ("NEUTRAL-vault-required-amount-reordered", "C06", VN+"vault/src/execute/callback/after_trade.rs", '.checked_add(protocol_fee)?\n        .checked_add(flash_loan_fee)?\n        .checked_add(burn_fee)?;', '.checked_add(burn_fee)?\n        .checked_add(flash_loan_fee)?\n        .checked_add(protocol_fee)?;', False),
+ ("NEUTRAL-vault-required-amount-reordered-C05", "C05", VN+"vault/src/execute/callback/after_trade.rs", '.checked_add(protocol_fee)?\n        .checked_add(flash_loan_fee)?\n        .checked_add(burn_fee)?;', '.checked_add(burn_fee)?\n        .checked_add(flash_loan_fee)?\n        .checked_add(protocol_fee)?;', False),
+ ("NEUTRAL-distributor-claimable-len", "C09", L+"fee_distributor/src/state.rs", 'claimable_epochs.retain(|epoch| !epoch.available.is_empty());', 'claimable_epochs.retain(|epoch| epoch.available.len() > 0);', False),
+ ("NEUTRAL-lair-local-weight-reordered", "C08", L+"whale_lair/src/state.rs",
+  '    bond.timestamp = timestamp;\n\n    let denom: &String = match &bond.asset.info {\n        AssetInfo::Token { .. } => return Err(ContractError::AssetMismatch {}),\n        AssetInfo::NativeToken { denom } => denom,\n    };\n',
+  '    let denom: String = match &bond.asset.info {\n        AssetInfo::Token { .. } => return Err(ContractError::AssetMismatch {}),\n        AssetInfo::NativeToken { denom } => denom.clone(),\n    };\n    let denom = &denom;\n    bond.timestamp = timestamp;\n', False),
  # neutral edits: must stay silent
  ("NEUTRAL-trio-owner-check-extracted", "C16", PN+"stableswap_3pool/src/commands.rs",
   '    let mut config: Config = CONFIG.load(deps.storage)?;\n    if deps.api.addr_validate(info.sender.as_str())? != config.owner {\n        return Err(ContractError::Std(StdError::generic_err("unauthorized")));\n    }\n\n    if let Some(owner) = owner {\n        // validate address format',
